@@ -22,6 +22,9 @@ def main():
     for m in cat:
         if want and m["name"] not in want:
             continue
+        # every mutant is applied to the current head of /repo (repairs may land while the catalogue runs)
+        head = sh("git", "-C", "/repo", "rev-parse", "HEAD").stdout.strip()
+        sh("git", "-C", WT, "checkout", "-q", "--detach", head)
         p = os.path.join(WT, m["file"])
         src = open(p).read()
         if m["old"] not in src:
